@@ -30,16 +30,10 @@ open Arith
 def C05.s3 : Store Nat :=
   { map := #[(⟨1, 0⟩, 5), (⟨2, 0⟩, 3), (⟨3, 0⟩, 9)], heap := #[2, 0, 1], qp := #[1, 2, 0], size := 3 }
 
-/-- executable form of `QpLt` (for the examples) -/
-theorem Store.qpLt_of_all {P : Type} {s : Store P} (h : s.qp.all (fun p => p < s.size) = true) : s.QpLt := by
-  intro i p hi
-  rw [Array.all_eq_true] at h
-  have hlt := lt_size_of_getElem? hi
-  have := h i hlt
-  have e : s.qp[i] = p := (Array.getElem?_eq_some_iff.1 hi).2
-  simpa [e] using this
-
 theorem C05.s3_qpLt : C05.s3.QpLt := Store.qpLt_of_all (by decide +kernel)
+
+/-- the hypothesis `QpLt` of the theorems below is a consequence of the standing invariant `WF` -/
+theorem C05_qpLt_of_WF {P : Type} {s : Store P} (h : s.WF) : s.QpLt := h.qpLt
 
 /-- the comparison count of a successful run (for the examples) -/
 def C05.ticksOf {P α : Type} (x : R (Store P × α)) : Option Nat := x.toOption.map (·.1.ticks)
@@ -165,6 +159,160 @@ theorem C05_pq_extend {s s' : Store P} {lo : Nat} {xs : Array (Item × P)} (hq :
 example : ticksOf' (MaxQ.extend s3 2 #[((⟨4, 0⟩ : Item), 7), (⟨5, 0⟩, 1)]) = some 3 := by decide +kernel
 
 end PQ
+
+section DPQ
+variable {P : Type} [LT P] [DecidableLT P]
+open C05
+
+/-! ## `DoublePriorityQueue` (min-max heap)
+
+One round of trickle-down costs at most 7 comparisons (at most 5 to select among the ≤ 6 candidates, one against
+the node, one against the parent of the grandchild) and descends two levels; one round of bubble-up costs one
+comparison and climbs two levels.  The sharper forms `7 * ((log2 n + 1) / 2)` etc. are in `PQ/Lemmas/Cost.lean`
+(`DQ.heapify_cost_log`, `DQ.upHeapify_cost`, `DQ.popMin_cost`, …); below they are rounded to `c1 * log2 n + c2`. -/
+
+/-- a small well-formed min-max heap: priorities 1 | 9 8 | 3 5 4 at positions 0..5 -/
+def C05.d6 : Store Nat :=
+  { map := #[(⟨1, 0⟩, 1), (⟨2, 0⟩, 9), (⟨3, 0⟩, 8), (⟨4, 0⟩, 3), (⟨5, 0⟩, 5), (⟨6, 0⟩, 4)],
+    heap := #[0, 1, 2, 3, 4, 5], qp := #[0, 1, 2, 3, 4, 5], size := 6 }
+
+theorem C05.d6_qpLt : C05.d6.QpLt := Store.qpLt_of_all (by decide +kernel)
+
+/-- `push`: at most `8 * log2 (n + 1) + 8` comparisons (a new item: at most `log2 (n + 1) / 2 + 1`) -/
+theorem C05_dpq_push {s s' : Store P} {it : Item} {p : P} {r : Option P} (hq : s.QpLt)
+    (h : DQ.push s it p = .ok (s', r)) : s'.ticks ≤ s.ticks + 8 * Nat.log2 (s.size + 1) + 8 := by
+  obtain ⟨a, _, c⟩ := DQ.push_cost hq h
+  have := log2_mono a; omega
+
+example : ticksOf (DQ.push d6 ⟨7, 0⟩ 0) = some 2 := by decide +kernel
+example : ticksOf (DQ.push d6 ⟨4, 0⟩ 10) = some 3 := by decide +kernel
+
+/-- `pop_min`: at most `4 * log2 n + 4` comparisons (sharp form: `7 * ((log2 (n - 1) + 1) / 2)`) -/
+theorem C05_dpq_popMin {s s' : Store P} {r : Option (Item × P)} (h : DQ.popMin s = .ok (s', r)) :
+    s'.ticks ≤ s.ticks + 4 * Nat.log2 s.size + 4 := by
+  obtain ⟨a, b⟩ := DQ.popMin_cost h
+  have := log2_mono (show s'.size ≤ s.size by omega); omega
+
+example : ticksOf (DQ.popMin d6) = some 5 := by decide +kernel
+
+/-- `pop_max`: at most `4 * log2 n + 5` comparisons (one of them in `find_max`) -/
+theorem C05_dpq_popMax {s s' : Store P} {r : Option (Item × P)} (h : DQ.popMax s = .ok (s', r)) :
+    s'.ticks ≤ s.ticks + 4 * Nat.log2 s.size + 5 := by
+  obtain ⟨a, b⟩ := DQ.popMax_cost h
+  have := log2_mono (show s'.size ≤ s.size by omega); omega
+
+example : ticksOf (DQ.popMax d6) = some 3 := by decide +kernel
+
+/-- `pop_min_if`: at most `4 * log2 n + 4` comparisons -/
+theorem C05_dpq_popMinIf {s s' : Store P} {f : Item → P → Bool × Item × P} {r : Option (Item × P)}
+    (h : DQ.popMinIf s f = .ok (s', r)) : s'.ticks ≤ s.ticks + 4 * Nat.log2 s.size + 4 := by
+  obtain ⟨a, b⟩ := DQ.popMinIf_cost h
+  have := log2_mono a; omega
+
+example : ticksOf (DQ.popMinIf d6 (fun it p => (true, it, p))) = some 5 := by decide +kernel
+
+/-- `pop_max_if`: at most `7 * log2 n + 9` comparisons (`find_max`, then a full `up_heapify`) -/
+theorem C05_dpq_popMaxIf {s s' : Store P} {f : Item → P → Bool × Item × P} {r : Option (Item × P)}
+    (h : DQ.popMaxIf s f = .ok (s', r)) : s'.ticks ≤ s.ticks + 7 * Nat.log2 s.size + 9 := by
+  obtain ⟨a, b⟩ := DQ.popMaxIf_cost h
+  have := log2_mono a; omega
+
+example : ticksOf (DQ.popMaxIf d6 (fun it p => (true, it, p))) = some 4 := by decide +kernel
+
+/-- `change_priority`: at most `8 * log2 n + 8` comparisons -/
+theorem C05_dpq_changePriority {s s' : Store P} {k : Nat} {p : P} {r : Option P} (hq : s.QpLt)
+    (h : DQ.changePriority s k p = .ok (s', r)) : s'.ticks ≤ s.ticks + 8 * Nat.log2 s.size + 8 :=
+  (DQ.changePriority_cost hq h).2
+
+example : ticksOf (DQ.changePriority d6 1 7) = some 6 := by decide +kernel
+
+/-- `change_priority_by`: at most `8 * log2 n + 8` comparisons -/
+theorem C05_dpq_changePriorityBy {s s' : Store P} {k : Nat} {g : P → P} {r : Bool} (hq : s.QpLt)
+    (h : DQ.changePriorityBy s k g = .ok (s', r)) : s'.ticks ≤ s.ticks + 8 * Nat.log2 s.size + 8 :=
+  (DQ.changePriorityBy_cost hq h).2
+
+example : ticksOf (DQ.changePriorityBy d6 1 (fun x => x + 6)) = some 6 := by decide +kernel
+
+/-- `remove`: at most `8 * log2 n + 8` comparisons; no hypothesis at all -/
+theorem C05_dpq_remove {s s' : Store P} {k : Nat} {r : Option (Item × P)}
+    (h : DQ.remove s k = .ok (s', r)) : s'.ticks ≤ s.ticks + 8 * Nat.log2 s.size + 8 := by
+  obtain ⟨a, b⟩ := DQ.remove_cost h
+  have := log2_mono a; omega
+
+example : ticksOf (DQ.remove d6 2) = some 3 := by decide +kernel
+
+/-- `push_increase`: one comparison with the stored priority, then possibly a `push` -/
+theorem C05_dpq_pushIncrease {s s' : Store P} {it : Item} {p : P} {r : Option P} (hq : s.QpLt)
+    (h : DQ.pushIncrease s it p = .ok (s', r)) : s'.ticks ≤ s.ticks + 8 * Nat.log2 (s.size + 1) + 9 := by
+  obtain ⟨a, _, c⟩ := DQ.pushIncrease_cost hq h
+  have := log2_mono a; omega
+
+example : ticksOf (DQ.pushIncrease d6 ⟨4, 0⟩ 10) = some 4 := by decide +kernel
+
+/-- `push_decrease`: one comparison with the stored priority, then possibly a `push` -/
+theorem C05_dpq_pushDecrease {s s' : Store P} {it : Item} {p : P} {r : Option P} (hq : s.QpLt)
+    (h : DQ.pushDecrease s it p = .ok (s', r)) : s'.ticks ≤ s.ticks + 8 * Nat.log2 (s.size + 1) + 9 := by
+  obtain ⟨a, _, c⟩ := DQ.pushDecrease_cost hq h
+  have := log2_mono a; omega
+
+example : ticksOf (DQ.pushDecrease d6 ⟨2, 0⟩ 0) = some 9 := by decide +kernel
+
+/-- `peek_min`, `len`, `is_empty`, `get`, `get_priority` are pure reads (no store in their result type, value independent
+of the counter); `peek_min_mut` and `get_mut` return a store with the counter unchanged. -/
+theorem C05_dpq_peek_free (s : Store P) (k : Nat) :
+    DQ.peekMin (s.tick k) = DQ.peekMin s ∧ (s.tick k).len = s.len ∧ (s.tick k).isEmpty = s.isEmpty ∧
+    (∀ key, (s.tick k).get key = s.get key) ∧ (∀ key, (s.tick k).getPriority key = s.getPriority key) ∧
+    (∀ w s' r, DQ.peekMinMutWrite s w = .ok (s', r) → s'.ticks = s.ticks) ∧
+    (∀ key w, (s.getMutWrite key w).1.ticks = s.ticks) := by
+  refine ⟨rfl, rfl, rfl, fun _ => rfl, fun _ => rfl, fun w s' r h => (DQ.peekMinMutWrite_cost h).1, fun key w => ?_⟩
+  unfold Store.getMutWrite; split <;> rfl
+
+example : (DQ.peekMin d6).toOption = some (some (⟨1, 0⟩, 1)) := by decide +kernel
+
+/-- `peek_max` (and `peek_max_mut`): at most one comparison -/
+theorem C05_dpq_peekMax_le_one {s s' : Store P} {r : Option (Item × P)} :
+    (DQ.peekMax s = .ok (s', r) → s'.ticks ≤ s.ticks + 1) ∧
+    (∀ w, DQ.peekMaxMutWrite s w = .ok (s', r) → s'.ticks ≤ s.ticks + 1) :=
+  ⟨fun h => (DQ.peekMax_cost h).2, fun _ h => (DQ.peekMaxMutWrite_cost h).1⟩
+
+example : ticksOf (DQ.peekMax d6) = some 1 := by decide +kernel
+
+/-- **`heap_build` of the min-max heap is linear** (also what dropping `iter_mut` runs): at most `7 * n` comparisons -/
+theorem C05_dpq_heapBuild_linear {s s' : Store P} (h : DQ.heapBuild s = .ok s') :
+    s'.ticks ≤ s.ticks + 7 * s.size := (DQ.heapBuild_cost h).2
+
+example : ticksOf' (DQ.heapBuild { d6 with heap := #[5, 4, 3, 2, 1, 0], qp := #[5, 4, 3, 2, 1, 0] }) = some 9 := by
+  decide +kernel
+
+/-- **the bulk operations are linear** (same list as for `PriorityQueue`, constant 7 instead of 2) -/
+theorem C05_dpq_bulk_linear :
+    (∀ (v : Array (Item × P)) (s' : Store P), DQ.fromVec v = .ok s' → s'.ticks ≤ 7 * s'.size ∧ s'.ticks ≤ 7 * v.size) ∧
+    (∀ (v : Array (Item × P)) (s' : Store P), DQ.fromIter v = .ok s' → s'.ticks ≤ 7 * s'.size ∧ s'.ticks ≤ 7 * v.size) ∧
+    (∀ (v : Array (Item × P)) (s' : Store P), DQ.deserialize v = .ok s' → s'.ticks ≤ 7 * s'.size ∧ s'.ticks ≤ 7 * v.size) ∧
+    (∀ (s s' : Store P) f, DQ.retainMut s f = .ok s' → s'.ticks ≤ s.ticks + 7 * s'.size) ∧
+    (∀ (s s' : Store P), DQ.ofStore s = .ok s' → s'.ticks ≤ s.ticks + 7 * s.size) ∧
+    (∀ (s o s' o' : Store P), DQ.append s o = .ok (s', o') → s'.ticks ≤ max s.ticks o.ticks + 7 * s'.size) ∧
+    (∀ (s s' : Store P) xs, DQ.heapBuild (s.extend xs) = .ok s' →
+        s'.ticks ≤ s.ticks + 7 * s'.size ∧ s'.size ≤ s.size + xs.size) := by
+  refine ⟨fun v s' h => ?_, fun v s' h => ?_, fun v s' h => ?_, fun s s' f h => DQ.retainMut_cost h,
+    fun s s' h => (DQ.ofStore_cost h).2, fun s o s' o' h => DQ.append_cost h,
+    fun s s' xs h => ⟨(DQ.extend_rebuild_cost h).2, (DQ.extend_rebuild_cost h).1⟩⟩
+  · obtain ⟨a, b⟩ := DQ.fromVec_cost h; exact ⟨b, by omega⟩
+  · obtain ⟨a, b⟩ := DQ.fromIter_cost h; exact ⟨b, by omega⟩
+  · obtain ⟨a, b⟩ := DQ.deserialize_cost h; exact ⟨b, by omega⟩
+
+example : ticksOf' (DQ.fromVec #[((⟨1, 0⟩ : Item), 5), (⟨2, 0⟩, 3), (⟨3, 0⟩, 9), (⟨4, 0⟩, 7)]) = some 5 := by
+  decide +kernel
+
+/-- `extend` as a whole: linear when it rebuilds, at most `k * (8 * log2 (final size) + 8)` when it pushes its `k`
+elements one by one -/
+theorem C05_dpq_extend {s s' : Store P} {lo : Nat} {xs : Array (Item × P)} (hq : s.QpLt)
+    (h : DQ.extend s lo xs = .ok s') :
+    s'.ticks ≤ s.ticks + max (7 * s'.size) (xs.size * (8 * Nat.log2 s'.size + 8)) := (DQ.extend_cost hq h).2
+
+example : ticksOf' (DQ.extend d6 2 #[((⟨7, 0⟩ : Item), 7), (⟨8, 0⟩, 0)]) = some 4 := by decide +kernel
+
+end DPQ
 end PQ
 
 #print axioms PQ.C05_pq_push
@@ -179,3 +327,18 @@ end PQ
 #print axioms PQ.C05_pq_heapBuild_linear
 #print axioms PQ.C05_pq_bulk_linear
 #print axioms PQ.C05_pq_extend
+#print axioms PQ.C05_dpq_push
+#print axioms PQ.C05_dpq_popMin
+#print axioms PQ.C05_dpq_popMax
+#print axioms PQ.C05_dpq_popMinIf
+#print axioms PQ.C05_dpq_popMaxIf
+#print axioms PQ.C05_dpq_changePriority
+#print axioms PQ.C05_dpq_changePriorityBy
+#print axioms PQ.C05_dpq_remove
+#print axioms PQ.C05_dpq_pushIncrease
+#print axioms PQ.C05_dpq_pushDecrease
+#print axioms PQ.C05_dpq_peek_free
+#print axioms PQ.C05_dpq_peekMax_le_one
+#print axioms PQ.C05_dpq_heapBuild_linear
+#print axioms PQ.C05_dpq_bulk_linear
+#print axioms PQ.C05_dpq_extend
